@@ -225,6 +225,58 @@ WRITERS: Dict[Tuple[str, str], str] = {
 }
 
 
+# request-specific tails: (function, callee, request name) → word
+REQUEST_WRITERS = {
+    ('channel.SSHClientChannel.create', '_send_request', b'env'): 's s',
+    ('channel.SSHClientChannel.create', '_send_request',
+     b'auth-agent-req@openssh.com'): '',
+    ('channel.SSHClientChannel.create', '_make_request', b'exec'): 's',
+    ('channel.SSHClientChannel.create', '_make_request', b'pty-req'):
+        's u u u u s',
+    ('channel.SSHClientChannel.create', '_make_request', b'x11-req'):
+        'B s s u',
+    ('channel.SSHClientChannel.create', '_make_request', b'subsystem'): 's',
+    ('channel.SSHClientChannel.create', '_make_request', b'shell'): '',
+    ('channel.SSHClientChannel.change_terminal_size', '_send_request',
+     b'window-change'): 'u u u u',
+    ('channel.SSHClientChannel.send_break', '_send_request', b'break'): 'u',
+    ('channel.SSHClientChannel.send_signal', '_send_request', b'signal'): 's',
+    ('channel.SSHServerChannel.set_xon_xoff', '_send_request', b'xon-xoff'):
+        'B',
+    ('channel.SSHServerChannel.exit', '_send_request', b'exit-status'): 'u',
+    ('channel.SSHServerChannel.exit_with_signal', '_send_request',
+     b'exit-signal'): 's B s s',
+    ('connection.SSHClientConnection.create_server', '_make_global_request',
+     b'tcpip-forward'): 's u',
+    ('connection.SSHClientConnection.close_client_tcp_listener',
+     '_make_global_request', b'cancel-tcpip-forward'): 's u',
+    ('connection.SSHClientConnection.create_unix_server',
+     '_make_global_request', b'streamlocal-forward@openssh.com'): 's',
+    ('connection.SSHClientConnection.close_client_unix_listener',
+     '_make_global_request', b'cancel-streamlocal-forward@openssh.com'): 's',
+    ('connection.SSHConnection._make_keepalive_request',
+     '_make_global_request', b'keepalive@openssh.com'): '',
+}
+
+# RFC 4252 method-specific request bodies (all arguments of send_request)
+AUTH_WRITERS = {
+    'auth._ClientPublicKeyAuth._start': 'B s s',
+    'auth._ClientPublicKeyAuth._send_signed_request': 'B s s',
+    'auth._ClientPasswordAuth._start': 'B s',
+    'auth._ClientPasswordAuth._change_password': 'B s s',
+    'auth._ClientKbdIntAuth._start': 's s',
+    'auth._ClientHostBasedAuth._start': 's s s s',
+}
+
+# server-side readers of the same bodies
+AUTH_READERS = {
+    'auth._ServerPublicKeyAuth._start': 'B s s [s] .',
+    'auth._ServerPasswordAuth._start': 'B s',
+    'auth._ServerKbdIntAuth._start': 's s .',
+    'auth._ServerHostBasedAuth._start': 's s s s s .',
+}
+
+
 def _canon(w: str) -> str:
     return ' '.join(w.split())
 
@@ -281,3 +333,56 @@ def r1(k: Kit, rule: str) -> None:
                       f'{qual} emits {msg} as `{got}` but the RFC layout is '
                       f'`{want}`', fi.loc(c))
     rep.floor(rule, 'writer layouts', m, 18)
+    r = 0
+    for (qual, callee, req), want in sorted(REQUEST_WRITERS.items(),
+                                            key=str):
+        if not k.idx.has_func(qual):
+            rep.error(rule, qual, 'request writer not found')
+            continue
+        fi = k.func(qual)
+        sites = [c for c in ast.walk(fi.node) if is_call(c, callee) and
+                 c.args and isinstance(c.args[0], ast.Constant) and
+                 c.args[0].value == req]
+        if not sites:
+            rep.error(rule, key(fi, f'request {req.decode()}'),
+                      'request site not found')
+            continue
+        for c in sites:
+            r += 1
+            args = [a for a in c.args[1:]]
+            got = _canon(writer_word(args))
+            rep.check(got == _canon(want), rule,
+                      key(fi, f'request {req.decode()}'),
+                      f'tail `{want or "(empty)"}`',
+                      f'{qual} sends the {req.decode()} request with tail '
+                      f'`{got}` but RFC 4254 / OpenSSH PROTOCOL says `{want}`',
+                      fi.loc(c))
+    rep.floor(rule, 'request tails', r, 16)
+    for qual, want in sorted(AUTH_WRITERS.items()):
+        if not k.idx.has_func(qual):
+            rep.error(rule, qual, 'auth writer not found')
+            continue
+        fi = k.func(qual)
+        sites = [c for c in ast.walk(fi.node) if is_call(c, 'send_request')]
+        if not sites:
+            rep.error(rule, key(fi, 'send_request'), 'site not found')
+            continue
+        for c in sites:
+            got = _canon(writer_word(list(c.args)))
+            rep.check(got == _canon(want), rule, key(fi, 'auth request body'),
+                      f'method body `{want}`',
+                      f'{qual} sends the method-specific body `{got}` but '
+                      f'RFC 4252/4256 says `{want}`', fi.loc(c))
+    for qual, want in sorted(AUTH_READERS.items()):
+        if not k.idx.has_func(qual):
+            rep.error(rule, qual, 'auth reader not found')
+            continue
+        fi = k.func(qual)
+        got = _canon(reader_word(fi.node.body))
+        want = _canon(want)
+        ok = got == want or (not want.endswith('.') and
+                             (got + ' ').startswith(want + ' '))
+        rep.check(ok, rule, key(fi, 'auth request reader'),
+                  f'parses `{want}`',
+                  f'{qual} parses `{got}` but RFC 4252/4256 says `{want}`',
+                  fi.loc(fi.node))
